@@ -63,7 +63,9 @@ def interpLine (j : JState) (tr : Tracer) (toks : List String) : Tracer × Strin
         { code := code, input := input, vals := envValOf vals code input, abort := false,
           table := fun op => (arr.getD op none),
           mkEnv := fun w mem => { w.env with mem := mem, memCap := mem.length },
-          keccak := fun b => (alookup b j.kmap).getD 0 }
+          keccak := fun b => (alookup b j.kmap).getD 0,
+          tget := fun w loc => (alookup loc w.transient).getD 0,
+          tset := fun w loc val => { w with transient := aset loc val w.transient } }
       let s0 : IState JState :=
         { stack := [], mem := [], pc := 0, gas := gas, rdata := [], readOnly := false, world := j, tr := tr, last := 0 }
       if code.isEmpty then (tr, s!"|halt:ok:{hexNat gas}:x")
